@@ -97,6 +97,41 @@ theorem decode_abi_slice_witness :
     p.length = 164 ∧ abiOffset p > p.length := by
   decide +kernel
 
+/-- the in-repo head of `report::decode` (feed id, version, dispatch) indexes in range for every
+byte string, rejects short data, and dispatches on the big-endian u16 in the first two bytes. -/
+theorem decodeHead_spec (p : List Nat) :
+    (p.length < 32 → decodeHead p = some .short) ∧
+    (32 ≤ p.length → decodeHead p =
+      some (if be (p.take 2) = 2 ∨ be (p.take 2) = 3 ∨ be (p.take 2) = 7 ∨ be (p.take 2) = 8 ∨ be (p.take 2) = 11
+        then .supported (be (p.take 2)) else .unsupported (be (p.take 2)))) := by
+  unfold decodeHead
+  constructor
+  · intro h; rw [if_pos h]
+  · intro h
+    rw [if_neg (by omega), slice_eq (by omega) (by omega)]
+    simp only [List.drop_zero, Nat.sub_zero]
+    rw [slice_eq (by omega) (by simp; omega)]
+    simp only [List.drop_zero, Nat.sub_zero, List.take_take]
+    rw [show min 2 32 = 2 by decide]
+    split <;> rfl
+
+theorem decodeHead_total (p : List Nat) : decodeHead p ≠ none := by
+  by_cases h : p.length < 32
+  · rw [(decodeHead_spec p).1 h]; exact fun e => nomatch e
+  · rw [(decodeHead_spec p).2 (by omega)]; exact fun e => nomatch e
+
+/-- status decoding tables (v8 coarse → extended, v11 extended) agree with what the conversion
+model `repOfVersion` assumes; 192-bit magnitudes always convert, larger ones are rejected. -/
+theorem status_and_number_tables :
+    (∀ s : Fin 8, (decodeMarketStatus s.val).map coarseToExtended =
+      (if s.val = 0 then some 0 else if s.val = 1 then some 5 else if s.val = 2 then some 2 else none)) ∧
+    (∀ s : Fin 8, decodeExtendedMarketStatus s.val = if s.val ≤ 5 then some s.val else none) ∧
+    (∀ z : Int, z.natAbs < 2 ^ 192 → bigintToSigned z = some (decide (0 ≤ z), z.natAbs)) ∧
+    (∀ z : Int, 2 ^ 192 ≤ z.natAbs → bigintToSigned z = none) := by
+  refine ⟨by decide, by decide, ?_, ?_⟩
+  · intro z h; unfold bigintToSigned biguintToU192; rw [if_pos h]; rfl
+  · intro z h; unfold bigintToSigned biguintToU192; rw [if_neg (by omega)]; rfl
+
 /-- negative price / bid / ask are rejected. -/
 theorem fromReport_rejects_negative (r : Rep)
     (h : r.price.1 = false ∨ r.bid.1 = false ∨ r.ask.1 = false) :
